@@ -54,6 +54,10 @@ TEXT = {
     "C19": (E1[0], "All construction paths, clones, all ordered pairs of distinct short inputs and all element widths are compared "
             "differentially over the bounded zoo.", "§4 C19",
             "bounded-exhaustive differential exploration of construction paths / copies / element widths"),
+    "C04": ("fault_enumeration", "Every safe public method is called in every state of a zoo that contains the states constructors never build "
+            "(Default, empty, deserialized) with every argument of a boundary alphabet, in both build profiles, under monitors that turn "
+            "panics, aborts, signals and sanitizer reports into failing executions.", "§4 C04",
+            "bounded-exhaustive enumeration of states x methods x arguments under fault monitors (panic trap, signal journal, UB checks, ASan)"),
 }
 
 NOTE = {
@@ -61,6 +65,7 @@ NOTE = {
     "C02": "Trusted: reference model, the hook's permutation code (add-only, off by default), minimum_redundancy (used only to label code shapes). Known finding KF2 (codes > 32 bits).",
     "C03": "Trusted: reference model, hook permutation code. Known finding KF2 (binary codes > 32 bits).",
     "C08": "Trusted: Vec<bool> reference, stateright's BFS. Known finding KF1 (BitVectorMut::get_bits off by one, pinned by the repository's own test). Depth bounds in the evidence.",
+    "C04": "Trusted: the allow-list of documented panics (matched on the documented condition, not the message), the signal journal, std's unsafe-precondition checks / ASan for out-of-bounds accesses that do not fault. utils::* free functions are C17's subject.",
     "C09": "Trusted: the explorer's digest; rank itself is validated by C01/C02. Prefetch intrinsics have no architectural effect, so only panics, faults and answer changes are observable. Known finding KF2 does not arise below 17 levels.",
     "C10": "Trusted: the reference model decides which arguments satisfy the precondition. Known finding KF1 (BitVectorMut::get_bits None at index+len==len while get_bits_unchecked answers).",
     "C11": "Trusted: bincode; PartialEq of the types (also exercised by C19).",
@@ -112,6 +117,8 @@ def main():
              "kind_free_text": "E2 history explorers: stateright BFS over BitVectorMut / QVectorBuilder histories, exhaustive iterator call histories"},
             {"name": "mc_diff", "path": "/verif/mc/src/bin/mc_diff.rs", "serves_properties": ["C09", "C10", "C11", "C19"],
              "kind_free_text": "E1 differential explorers: prefetch vs plain rank and feature on/off digests, unchecked vs checked, bincode round trip, construction paths / clones / widths"},
+            {"name": "mc_safety", "path": "/verif/mc/src/bin/mc_safety.rs", "serves_properties": ["C04"],
+             "kind_free_text": "state zoo x method x argument sweep under panic / signal / UB-check / ASan monitors"},
             {"name": "mc_vectors", "path": "/verif/mc/src/bin/mc_vectors.rs", "serves_properties": ["C05", "C06", "C07"],
              "kind_free_text": "E1 bounded-exhaustive input-space explorer for RSQVector, RSNarrow/RSWide and DArray"},
         ],
